@@ -24,7 +24,7 @@ RULE_TEXT = (
     "subject layer or connects two modules of it."
 )
 ASSUMPTIONS = [
-    "all modules listed in the layers are pairwise unrelated (the property's precondition)",
+    "modules listed in different layers are pairwise unrelated (the property's precondition); a quarter of the random cases list, inside one layer, a module together with one of its own descendants (same union)",
     "regex layer specifications are $-anchored alternations of escaped names, so the matched set is exactly the intended one",
 ]
 
@@ -196,6 +196,18 @@ def cases(draw):
         else:
             layer_defs.append({"name": f"L{li}", "kind": "names", "modules": mods,
                                "as_str": len(mods) == 1 and draw(st.booleans())})
+    if draw(st.integers(0, 3)) == 0:
+        # a layer that lists one of its modules together with a module below it (redundant, the layer is the union of the
+        # listed modules and their descendants either way); other modules below the same parent stay unlisted
+        li = draw(st.integers(0, len(layer_defs) - 1))
+        below = [m for m in tree if any(M.is_strict_desc(m, x) for x in layer_defs[li]["modules"])]
+        if below:
+            extra = draw(st.sampled_from(below))
+            ld = layer_defs[li]
+            ld["modules"] = sorted(set(ld["modules"]) | {extra})
+            ld["as_str"] = False
+            if ld["kind"] == "regex":
+                ld["regex"] = layer_regex(ld["modules"])
     names = [ld["name"] for ld in layer_defs]
     subj = draw(st.sampled_from(names))
     others = [n for n in names if n != subj]
